@@ -26,6 +26,7 @@ class Capture:
             vs = list(polyhedron.A.variables)
             x = [int(v.bounds.lower) + (j % (int(v.bounds.upper) - int(v.bounds.lower) + 1)) for j, v in enumerate(vs)]
             out.append((numpy.array(x), int(numpy.dot(o, x)), 6))
+        self.calls[-1]["answers"] = out
         return out
 
 def exact(polyhedron, objective, limit=1 << 16):
